@@ -76,6 +76,9 @@ func (m *fullMon) preWrite(actor, verb string, res Resource, old, obj runtime.Ob
 					m.v("C06/refused-non-forbid", "job-queue controller refused %s whose policy is %q", fmtJob(oj), pol)
 				}
 			}
+			if !hasAdmissionError(oj) && hasAdmissionError(nj) && ctrlOfCall(call) == "job" {
+				m.c09Refusal(nj)
+			}
 			if oj.Status.Condition.Finished == nil && nj.Status.Condition.Finished != nil {
 				m.c10Finish(call, oj, nj)
 			}
@@ -636,6 +639,33 @@ func (m *fullMon) decided(j *execution.Job) string {
 	return ""
 }
 
+// c09Refusal: the job controller gives up on a Job with an admission error. If
+// the error names a Pod that exists and is controlled by this very Job, the Job
+// has refused to adopt its own task (C09: never forgotten).
+func (m *fullMon) c09Refusal(nj *execution.Job) {
+	m.stat("mon.c09.refusals")
+	msg := nj.Annotations[annAdmissionError]
+	for _, p := range m.t.podsOfJob(string(nj.UID)) {
+		if strings.Contains(msg, p.Name) {
+			m.v("C09/own-task-refused", "%s is marked with an admission error (%q) naming Pod %s, which exists and is controlled by this Job: its own task was not adopted", fmtJob(nj), msg, p.Name)
+			return
+		}
+	}
+}
+
+// orphanCause classifies why a Job stopped before adopting an unrecorded task.
+func orphanCause(nj *execution.Job, p *corev1.Pod) string {
+	switch {
+	case hasAdmissionError(nj) && strings.Contains(nj.Annotations[annAdmissionError], p.Name):
+		return "own task refused"
+	case nj.Spec.KillTimestamp != nil:
+		return "killed before adoption"
+	case hasAdmissionError(nj):
+		return "admission error of another task before adoption"
+	}
+	return "outcome decided by other tasks before adoption"
+}
+
 func (m *fullMon) c10Finish(call *APICall, oj, nj *execution.Job) {
 	fin := nj.Status.Condition.Finished
 	if nj.DeletionTimestamp != nil {
@@ -645,7 +675,7 @@ func (m *fullMon) c10Finish(call *APICall, oj, nj *execution.Job) {
 	// no task alive at the finishing write of a Job that is not being deleted
 	for _, p := range m.t.podsOfJob(string(nj.UID)) {
 		if !podTerminal(p) {
-			rec := "not recorded in status.tasks"
+			rec := "not recorded in status.tasks; " + orphanCause(nj, p)
 			for _, r := range nj.Status.Tasks {
 				if r.Name == p.Name {
 					rec = "recorded in status.tasks"
